@@ -1777,3 +1777,7 @@ def gen_C07(rng, tier, cfg):
 
 
 GENS.update({"C01": gen_C01, "C07": gen_C07})
+
+
+# ---- the EQUALITY implementations of the vector library (`simd .. eq`, compare intrinsics, `guts eqd`): tools/gens_simdeq.py
+import gens_simdeq as _EQG; _EQG.install(globals())
